@@ -327,7 +327,19 @@ def _check_lookup(facts, hfn, kind, lst):
         return 'lookup does not use exactly one binary_search_by'
     why = ''
     n = strip(bs[0][0])
-    fc = H.field_chain(strip(n['recv']))
+    def unalias(e):
+        e = strip(e)
+        for _ in range(4):
+            # `let points = &self.timing_points;` -- an alias of the list
+            if isinstance(e, dict) and e.get('k') == 'local' and e.get('name') != 'self':
+                its = unique_inits(ctx, e['name'])
+                if len(its) == 1:
+                    e = strip(its[0])
+                    continue
+            break
+        return e
+    recv = unalias(n['recv'])
+    fc = H.field_chain(recv)
     if not fc or fc[0] != 'self' or fc[1] != [lst]:
         why = 'lookup searches `%s` instead of `%s`' % ('.'.join(fc[1]) if fc else '?', lst)
     cmpx = _closure_cmp(ctx, n['args'][0])
@@ -356,11 +368,11 @@ def _check_lookup(facts, hfn, kind, lst):
 
     def visit(x, anc):
         if x.get('k') == 'index':
-            fc2 = H.field_chain(strip(x['e']))
+            fc2 = H.field_chain(unalias(x['e']))
             if fc2:
                 used.add(tuple(fc2[1]))
         if x.get('k') == 'mcall' and x.get('name') == 'get':
-            fc2 = H.field_chain(strip(x['recv']))
+            fc2 = H.field_chain(unalias(x['recv']))
             if fc2:
                 used.add(tuple(fc2[1]))
     H.walk(body, visit)
